@@ -201,6 +201,11 @@ theorem scanPhase_folders (m : Node) :
   · have : ¬ m.scanCd = 1 := by omega
     simp [this]
 
+@[simp] theorem redPhase_sws (m : Node) : m.redPhase.sws = m.sws := by unfold Node.redPhase; split <;> rfl
+@[simp] theorem redPhase_folders (m : Node) : m.redPhase.folders = m.folders := by unfold Node.redPhase; split <;> rfl
+@[simp] theorem redPhase_scanCd (m : Node) : m.redPhase.scanCd = m.scanCd := by unfold Node.redPhase; split <;> rfl
+@[simp] theorem redPhase_power (m : Node) : m.redPhase.power = m.power := by unfold Node.redPhase; split <;> rfl
+
 /-- effect of a tick on one software item -/
 def tickEff (n : Node) (x : Sw) : Sw :=
   if n.powerPhase.power = .on then (if n.powerPhase.scanCd = 1 then (powerEff n x).scan else powerEff n x).tick
@@ -210,7 +215,7 @@ theorem tick_sws (n : Node) : n.tick.sws = n.sws.map (tickEff n) := by
   unfold Node.tick tickEff
   simp only []
   split
-  · simp only [Node.itemPhase, mapFolders_sws, mapSws_sws, scanPhase_sws, powerPhase_sws, List.map_map]
+  · simp only [Node.itemPhase, mapFolders_sws, mapSws_sws, redPhase_sws, scanPhase_sws, powerPhase_sws, List.map_map]
     apply List.map_congr_left
     intro x _
     simp only [Function.comp_def]
@@ -226,7 +231,7 @@ theorem tick_folders (n : Node) : n.tick.folders = n.folders.map (folderTickEff 
   unfold Node.tick folderTickEff
   simp only []
   split
-  · simp only [Node.itemPhase, mapFolders_folders, mapSws_folders, scanPhase_folders, powerPhase_folders, List.map_map]
+  · simp only [Node.itemPhase, mapFolders_folders, mapSws_folders, redPhase_folders, scanPhase_folders, powerPhase_folders, List.map_map]
     apply List.map_congr_left
     intro x _
     simp only [Function.comp_def]
